@@ -20,6 +20,8 @@ def run(tier, seed):
     for pe, we, sp in combos:
         ctx.replay(g, Hist1DAdapter(POS[pe], WTS[we], spelling=sp), VIEW, label=f"1D:{pe}/{we}/sp{sp}",
                    edge_budget=60000 if tier == "quick" else 400000)
+    # unit-weight fills spelled with the operator alias `h << value`
+    ctx.replay(g, Hist1DAdapter(POS["neg"], WTS["int"], spelling=3), VIEW, label="1D:neg/int/sp3(<<)", edge_budget=25000 if tier == "quick" else 100000)
     if tier == "thorough":
         # random behaviours of 8 calls (beyond the exhaustive bound), replayed call by call
         gs = ctx.simulate("MC_Hist1D_quick", "MC_Hist1D_sim", num=1500, depth=9)
